@@ -320,6 +320,9 @@ fn recover_args<K: TestKey>(
         v.push("--script".into());
         v.push(s.display().to_string());
     }
+    if case.class == "pre-create" {
+        v.push("--pre-create".into());
+    }
     v
 }
 
@@ -809,7 +812,81 @@ fn judge_image<K: TestKey>(
     if !st_left.is_empty() {
         out.push(Finding::new(&["C08", "C13"], "staging/ not empty after clean-up", site, format!("{st_left:?}")));
     }
+    if case.class == "pre-create" {
+        check_precreated_tree(case, root, site, crash_props, &mut out, rep);
+    }
     out
+}
+
+/// A store whose settings file remembers "the directory tree was pre-created" never creates a
+/// shard directory again. After a creation that was killed part-way and then completed by the
+/// recovering open, every blob must still be storable: for a shard directory that is missing,
+/// a content hashing into it is searched for and put through the API.
+fn check_precreated_tree<K: TestKey>(
+    case: &Case<K>,
+    root: &Path,
+    site: &str,
+    crash_props: &[&'static str],
+    out: &mut Vec<Finding>,
+    rep: &mut Report,
+) {
+    let settings = std::fs::read_to_string(root.join("db_settings.json")).unwrap_or_default();
+    let flat: String = settings.chars().filter(|c| !c.is_whitespace()).collect();
+    if !flat.contains("\"dir_tree_is_pre_created\":true") {
+        return;
+    }
+    rep.count("precreated_trees_walked", 1);
+    let mut missing: Vec<(u8, u8)> = Vec::new();
+    for i in 0..=255u8 {
+        let l1 = root.join("cas").join(format!("{i:02x}"));
+        for j in 0..=255u8 {
+            if !l1.join(format!("{j:02x}")).is_dir() {
+                missing.push((i, j));
+            }
+        }
+    }
+    if missing.is_empty() {
+        return;
+    }
+    let (i, j) = missing[missing.len() / 2];
+    let mut n = 0u64;
+    let content = loop {
+        let c = format!("pre-create probe {n}").into_bytes();
+        let h = b3(&c);
+        if h[0] == i && h[1] == j {
+            break c;
+        }
+        n += 1;
+        if n > 20_000_000 {
+            rep.inconclusive.push("no content found for a missing shard directory".into());
+            return;
+        }
+    };
+    let cfg = cassadilia_verif::session::config(case.n_ops, case.sync, true, false, false);
+    let cas = match cassadilia::Cas::<K>::open(root, cfg) {
+        Ok(c) => c,
+        Err(e) => {
+            out.push(Finding::new(crash_props, "reopen of the recovered store fails", site, cassadilia_verif::session::err_chain(&e)));
+            return;
+        }
+    };
+    let key = K::bulk(987_654, 12);
+    let r = (|| -> Result<(), String> {
+        let mut tx = cas.put(key.clone()).map_err(|e| cassadilia_verif::session::err_chain(&e))?;
+        tx.write(&content).map_err(|e| cassadilia_verif::session::err_chain(&e))?;
+        tx.finish().map_err(|e| cassadilia_verif::session::err_chain(&e))
+    })();
+    rep.count("precreated_tree_probe_puts", 1);
+    if let Err(e) = r {
+        let mut props: Vec<&'static str> = crash_props.to_vec();
+        props.push("C19");
+        out.push(Finding::new(
+            &props,
+            "a store that remembers a pre-created tree rejects a blob after its creation was interrupted and completed",
+            site,
+            format!("{} of 65536 shard directories missing; put of a content hashing to {i:02x}/{j:02x}: {e}", missing.len()),
+        ));
+    }
 }
 
 fn acked_versions_of(ack: &AckInfo) -> BTreeSet<u64> {
